@@ -27,6 +27,8 @@ type Program struct {
 	storedGlobals map[*ssa.Global]bool
 	ppkgs    []*packages.Package
 	gconsts  map[*ssa.Global]*ssa.Const
+	initStores map[*ssa.Store]bool
+	initDone   map[*ssa.Function]bool
 }
 
 func loadProgram(repo, libDir string) (*Program, error) {
